@@ -1,7 +1,7 @@
 #![no_main]
 // C19 beyond single edits: any UTF-8 text read as a .ctehexml project is parsed (XML sections, BDL, systems),
 // merged with the LIDER catalogue and converted; Ok or Err pass, a panic does not.
-use libfuzzer_sys::fuzz_target;
+use libfuzzer_sys::{fuzz_mutator, fuzz_target};
 use std::sync::OnceLock;
 mod common;
 
@@ -37,4 +37,15 @@ fuzz_target!(|data: &[u8]| {
         }
         Err(_) => common::class("parse-error"),
     });
+});
+
+// three out of four mutations are line-level edits (the fault vocabulary of the enumeration, combined and
+// iterated under coverage guidance); the rest are libFuzzer's byte-level mutations
+fuzz_mutator!(|data: &mut [u8], size: usize, max_size: usize, seed: u32| {
+    if seed % 4 != 0 {
+        if let Some(n) = common::mutate_lines(data, size, max_size, seed) {
+            return n;
+        }
+    }
+    libfuzzer_sys::fuzzer_mutate(data, size, max_size)
 });
